@@ -5,6 +5,7 @@ package main
 //
 // Rule families (see NOTES.md for instance counts):
 //   V.*  validate-before-use typestate of ChunkReader.currNode          (c15.go)
+//   N.*  the per-node validation clauses of rNode.valid vs the spec layout (c15_node.go)
 //   R.*  loop inventory and the descent loop's ranking guard            (c15_rank.go)
 //   S.*  sticky error of ChunkReader / Reader                           (c15_sticky.go)
 //   D.*  racdict.Loader.Load length / checksum / cache guards           (c15_dict.go)
@@ -138,6 +139,7 @@ func runC15(c *core.Ctx) {
 		return
 	}
 	c15Validate(x)
+	c15Node(x)
 	c15Rank(x)
 	c15Sticky(x)
 	c15Dictionary(x)
